@@ -1678,3 +1678,7 @@ mod fuzz {
         });
     }
 }
+
+#[cfg(all(tokio_rs_bytes_verif, not(loom)))]
+#[path = "verif_bytes.rs"]
+mod verif_hook;
